@@ -62,6 +62,16 @@ def render_layout_case(i, c):
     else:
         decl = "%s S%d { %s }%s;" % (kw, i, body, a)
     T = "%s S%d" % (kw, i)
+    # declaration form (independent of the layout): the tag may already be known, still incomplete, when the
+    # definition (with its leading or trailing attribute list) is reached
+    form = (i // 2) % 4
+    if form == 1:
+        decl = "%s S%d;\n%s" % (kw, i, decl)                                   # forward declaration
+    elif form == 2:
+        decl = "typedef %s S%d TS%d;\n%s" % (kw, i, i, decl)                   # typedef of the incomplete type
+        T = "TS%d" % i
+    elif form == 3:
+        decl = "extern %s S%d *fwd%d(%s S%d *);\n%s" % (kw, i, i, kw, i, decl)  # used in a prototype first
     f = ["static void f%d(void) { %s s; int a, b, c;" % (i, T),
          ' printf("C %d %%d %%d", (int)sizeof(%s), (int)_Alignof(%s));' % (i, T, T)]
     for j, m in enumerate(c["ms"]):
